@@ -566,6 +566,40 @@ func TestProp(t *testing.T) {
 			fn := fns[rng.Intn(len(fns))]
 			rv := []int{3, 6, 20}[rng.Intn(3)]
 			c := Case{Fn: fn, T: types[rng.Intn(3)], Key: keys[rng.Intn(4)]}
+			if i%8 == 7 && fn != "Union" {
+				// large inputs: tens to hundreds of distinct values, every one of them repeated later
+				// (size thresholds at which an implementation may switch its strategy)
+				rv = []int{18, 40, 130, 600}[rng.Intn(4)]
+				big := func() []int {
+					n := rng.Range(rv, 3*rv)
+					if n > 400 {
+						n = 400
+					}
+					s := make([]int, n)
+					for j := range s {
+						s[j] = rng.Intn(rv)
+					}
+					if rng.Bool() { // a full second pass over the same values
+						s = append(s, s[:len(s)/2]...)
+					}
+					return s
+				}
+				switch fn {
+				case "Intersection", "IntersectionBy":
+					for n := rng.Range(1, 3); n > 0; n-- {
+						c.S = append(c.S, big())
+					}
+				case "Difference", "DifferenceBy":
+					c.S = [][]int{big(), big()}
+				case "Without":
+					c.S = [][]int{big()}
+					c.Vals = rs(40, rv)
+				default:
+					c.S = [][]int{big()}
+				}
+				emit(c)
+				continue
+			}
 			switch fn {
 			case "Union":
 				n := rn(3)
